@@ -216,10 +216,14 @@ def parse_assumptions(out, src_text):
             cur = []
             blocks.append(cur)
         elif cur is not None:
-            m = re.match(r"^([A-Za-z0-9_'.]+)\s*:", line)
+            # an axiom is printed as `name : type` or, when the type is long, as `name` alone
+            # on a line followed by indented `: type` lines
+            m = re.match(r"^([A-Za-z_][A-Za-z0-9_'.]*)\s*(:.*)?$", line)
             if m:
                 cur.append(m.group(1))
-            elif line and not line.startswith(" "):
+            elif line.startswith(" ") or not line.strip():
+                pass
+            else:
                 cur = None
     res = {}
     bad = []
